@@ -44,7 +44,11 @@ def scheduler_backtrack(
 
     # exit condition for the algorithm: if all dimensions are considered
     if inner_dims > schedule.num_dims:
-        yield schedule
+        # a schedule that runs out of dimensions before the template does (for instance a
+        # matmul with one row, whose unit dimension has been canonicalised away) does not
+        # address the operands the way the template does
+        if schedule.num_dims >= template.num_dims:
+            yield schedule
 
     # This for loop rotates the outermost + focused dims loops in all ways.
     # There are thus `schedule.num_dims - inner_dims + 1` different rotations possible.
